@@ -85,9 +85,49 @@ CHECKS.update({
   ref="4 C07"),
 })
 
+CHECKS.update({
+ "C09": dict(
+  text="In-memory half of flush/load on the real store: Store::export_for_persistence / export / Node slimming and `From<PersistedStore> for Store` from constructed stores "
+       "{$SYS/s, a, a/b} with solver-chosen values, kinds (plain / CAS per harness) and 64-bit CAS versions: the tree handed to the serializer holds every user key with the "
+       "same value, kind and version and nothing under $SYS, the live store is unchanged by the export, and a store rebuilt from that tree serves the same reads with the "
+       "recounted entry count; plus Store::merge (the import path used by load) for overwrite / add / value-onto-inner-node.",
+  note=BASE + "Outside the claim: the JSON text codec between export and load (serde_json text, the source of C14's not-applicable), the file layouts v1/v2/v3 and their toggle "
+       "files (file I/O), application of grave goods / last wills after load (covered for the live path by C07), values other than Bool.", ref="A C09"),
+ "C13": dict(
+  text="Every request kind of protocol v0 and v1 (get, cget, pget, set, cset, spub_init, spub, publish, subscribe, psubscribe, unsubscribe, delete, pdelete, ls, pls, subscribe_ls, "
+       "unsubscribe_ls, lock, acquire_lock, release_lock, transform) through the real V0/V1::process_incoming_message and handlers against a NONDETERMINISTIC core (stand-in API: "
+       "the solver chooses success or one of the core's errors), transaction id any u64: exactly one message is queued for the client, it carries the request's id, it is of the "
+       "kind the protocol assigns (Ack/State/PState/CState/LsState) or an Err with ErrorCode::from(reason), the handler returns Ok (session continues), one core call per request, "
+       "a forwarding task is spawned exactly for an acknowledged subscription; request kinds the negotiated version does not implement are answered with Err NotImplemented (fixed finding).",
+  note=BASE + "One request per harness on a fresh session state (the handlers keep no per-session state besides the queue, so this composes to pipelined sequences); the core is a stand-in "
+       "(src/standin_api.rs) - what the real core answers is C01-C08. Outside: decoding of the request line (serde_json text), Proto::process_incoming_message's protocol switch, the "
+       "socket loops of tcp.rs / unix.rs / websocket (read: an Err from the handler ends the session), the forwarding tasks' bodies, several concurrent sessions (tokio).", ref="A C13"),
+ "C15": dict(
+  text="auth.rs on the real code: (a) pattern containment `pattern_matches`/AuthCheck for every granted pattern of <= 3 segments over {a,b,?,#} (one generated harness per grant) "
+       "against a solver-chosen requested pattern of <= 3 segments over the same alphabet, compared with a reference containment relation; (b) JwtClaims::authorize selects the grant "
+       "list of exactly the requested privilege (read / write / delete), flag privileges only for flag checks, no grant list = refused.",
+  note=BASE + "Outside the claim: token validation (jsonwebtoken is a types-only model; signature / expiry checks are not encoded), the call sites in the protocol handlers "
+       "(check_auth with auth_required = true; the C13 family runs with authorization off), patterns of depth 4.", ref="A C15"),
+ "C16": dict(
+  text="The real PStateAggregatorState::{aggregate, send_current_state, send_set_event, send_deleted_event, key_already_buffered, schedule_send} driven event by event with the timer "
+       "as an environment event (the model `spawn` registers the timer task, the harness decides when it runs and delivers the tick as aggregate_loop does): for generated sequences "
+       "of 3 set/deleted events over keys {a,b} and firing patterns, values chosen by the solver: per key the delivered sequence equals the produced one (kind, value, order), nothing "
+       "lost or duplicated, no empty batch, batches carry the subscription's id, and whenever something is buffered an armed timer or its tick is outstanding.",
+  note=BASE + "Bounds: 3 events, 2 keys, 6 generated (sequence, firing) combinations, values Bool; hashlink::LinkedHashMap is a 2-slot insertion-ordered model. Outside: real time (the bound "
+       "'not longer than the interval' is established as 'a timer armed at or before the event is outstanding'), the select! loop of aggregate_loop, client back-pressure. No native replay "
+       "for this family (the timer-as-event interface exists only in the model): a failing harness is reported as inconclusive (exit 2), not as VIOLATION.", ref="A C16"),
+ "C19": dict(
+  text="Cluster orchestrator: (a) quorum_sanity_check and Config::update_quorum (sliced verbatim) for every number of configured peers <= 4096 and any configured quorum: the default "
+       "quorum is a strict majority of all nodes, a configured quorum is accepted iff it is a strict majority and not larger than the node count; (b) the real election.rs "
+       "(Election::process_peer_election_message / process_vote_response / is_part_of_cluster): over generated message sequences (distinct votes, duplicates, strangers, heartbeats) and "
+       "a one-step harness with symbolic vote count and quorum, the node becomes leader exactly when own vote + votes of DISTINCT CONFIGURED peers reach the quorum.",
+  note=BASE + "Bounds: 4 configured peers, sequences of 4 messages with quorum 3, one symbolic step with quorum 1..5. Outside: UDP transport, timeouts / election rounds over time, "
+       "two candidates racing (schedules), the leader's heartbeat loop, process supervision.", ref="A C19"),
+})
+
 NA = {
 }
-PENDING = ["C09","C10","C11","C12","C13","C15","C16","C19"]
+PENDING = ["C10","C11","C12"]
 NA_FIXED = {
  "C14": "the property is the serde_json text codec composed with serde derives; the real codec exhausts 17-19 GB / 10 min under Kani/CBMC for a one-field message (measured), and a model codec would only verify the model",
  "C18": "ReDB is an on-disk B-tree behind a background writer task and file I/O; neither the database nor the batching schedule can be executed symbolically here and no pure kernel of the property remains",
